@@ -36,6 +36,7 @@ open SL.ISort (StrictTotal)
 
 section
 variable {φ κ : Type} [KOrd κ] [DecidableEq κ]
+set_option linter.unusedSectionVars false
 
 /-! ## merge is a homomorphism: collecting a concatenation = merging the collections -/
 
@@ -141,7 +142,7 @@ theorem finalize_collect (h : StrictTotal (KOrd.lt (κ := κ))) :
 theorem finalizeList_collectList (h : StrictTotal (KOrd.lt (κ := κ))) :
     ∀ (as : Aggs φ κ), as.safe = true → ∀ docs : List (Doc φ κ),
       finalizeList as (collectList as docs) = Spec.aggs as docs
-  | .nil, _, _ => by simp [collectList, finalizeList, Spec.aggs]
+  | .nil, _, _ => by simp [finalizeList, Spec.aggs]
   | .cons a rest, hs, docs => by
     simp only [Aggs.safe, Bool.and_eq_true] at hs
     simp only [collectList, finalizeList, Spec.aggs, finalize_collect h a hs.1 docs,
@@ -186,5 +187,139 @@ theorem merge_assoc (h : StrictTotal (KOrd.lt (κ := κ))) (a : Agg φ κ) (hs :
   rw [← collect_append h a hs, ← collect_append h a hs, ← collect_append h a hs,
     ← collect_append h a hs, List.append_assoc]
 
+/-! ## merge is commutative on the intermediates that can arise -/
+
+mutual
+/-- the order in which two segments are merged does not matter (all kinds, every depth) -/
+theorem merge_comm (h : StrictTotal (KOrd.lt (κ := κ))) :
+    ∀ (a : Agg φ κ), a.safe = true → ∀ xs ys : List (Doc φ κ),
+      merge a (collect a xs) (collect a ys) = merge a (collect a ys) (collect a xs)
+  | .stats f m, _, xs, ys => by
+    simp only [collect, merge, collectStats_eq_spec, mergeStats_comm_spec]
+  | .extStats f m, _, xs, ys => by
+    simp only [collect, merge, collectStats_eq_spec, mergeStats_comm_spec]
+  | .valueCount f m, _, xs, ys => by
+    simp only [collect, merge, Nat.add_comm]
+  | .cardKw f m, _, xs, ys => by
+    simp only [collect, merge]; rw [partSet_comm h]
+  | .cardNum f m, _, xs, ys => by
+    simp only [collect, merge]; rw [partSet_comm h]
+  | .percentiles f m ps, _, xs, ys => by
+    simp only [collect, merge]
+    rw [sortBy_perm ratLt_strictTotal List.perm_append_comm]
+  | .ranks f m ts, _, xs, ys => by
+    simp only [collect, merge]
+    rw [sortBy_perm ratLt_strictTotal List.perm_append_comm]
+  | .bucket b subs, hs, xs, ys => by
+    simp only [Agg.safe, Bool.and_eq_true] at hs
+    obtain ⟨hb, hsub⟩ := hs
+    simp only [collect, merge, finishSeg_safe hb, mergePost_safe hb]
+    congr 1
+    exact filter_raw_comm h b b.minOf (collectList subs) (mergeList subs)
+      (mergeList_comm h subs hsub) (mergeList_nil_left subs) (mergeList_nil_right subs) xs ys
+theorem mergeList_comm (h : StrictTotal (KOrd.lt (κ := κ))) :
+    ∀ (as : Aggs φ κ), as.safe = true → ∀ xs ys : List (Doc φ κ),
+      mergeList as (collectList as xs) (collectList as ys) =
+        mergeList as (collectList as ys) (collectList as xs)
+  | .nil, _, _, _ => by simp [mergeList]
+  | .cons a rest, hs, xs, ys => by
+    simp only [Aggs.safe, Bool.and_eq_true] at hs
+    simp only [collectList, mergeList, merge_comm h a hs.1 xs ys, mergeList_comm h rest hs.2 xs ys]
 end
+
+/-- swapping two adjacent segments does not change the response -/
+theorem swap_segments_partial (h : StrictTotal (KOrd.lt (κ := κ))) (a : Agg φ κ)
+    (hs : a.safe = true) (s₀ s₁ : List (Doc φ κ)) :
+    run a [s₀, s₁] = run a [s₁, s₀] := by
+  simp only [run, List.map_cons, List.map_nil, mergeAll, List.foldl_cons, List.foldl_nil,
+    merge_comm h a hs s₀ s₁]
+
+end
+
+/-! ## the unchanged code violates the full statement: kernel-checked witnesses
+
+Key atoms are `Nat` (string literals do not reduce in the kernel); `counts` projects a response
+to its (key, doc_count) list. -/
+
+def counts {κ : Type} : Node κ → List (Key κ × Nat)
+  | .buckets bs _ => bs.map (fun x => (x.1, x.2.1))
+  | _ => []
+
+/-- document with keyword values `ks` (field `()`) -/
+def kdoc (i : Nat) (ks : List Nat) : Doc Unit Nat := ⟨i, fun _ => ks, fun _ => []⟩
+/-- document with numeric values `vs` (field `()`) -/
+def ndoc (i : Nat) (vs : List Rat) : Doc Unit Nat := ⟨i, fun _ => [], fun _ => vs⟩
+
+/-- terms `min_doc_count = 2`, key `1` once in each of two segments: the mechanism returns no
+bucket, the reference returns `1 ↦ 2` (`TermsCollector::finish` filters per segment) -/
+theorem terms_min_doc_count_per_segment :
+    let a : Agg Unit Nat := .bucket (.terms () none 2 none) .nil
+    (run a [[kdoc 0 [1]], [kdoc 1 [1]]]).map counts = some [] ∧
+    counts (Spec.agg a [kdoc 0 [1], kdoc 1 [1]]) = [(Key.str 1, 2)] := by
+  decide
+
+/-- terms `size = 1`: segment 1 holds keys 1,1,2 and segment 2 holds keys 2,2,3,3,3.  Each
+segment keeps only its own top-1 (`1 ↦ 2`, `3 ↦ 3`), so key 2 — globally `2 ↦ 3`, the reference's
+top-1 by (count desc, key asc) — is lost and the mechanism answers `3 ↦ 3` -/
+theorem terms_size_per_segment :
+    let a : Agg Unit Nat := .bucket (.terms () (some 1) 1 none) .nil
+    (run a [[kdoc 0 [1], kdoc 1 [1], kdoc 2 [2]], [kdoc 3 [2], kdoc 4 [2], kdoc 5 [3], kdoc 6 [3], kdoc 7 [3]]]).map counts
+      = some [(Key.str 3, 3)] ∧
+    counts (Spec.agg a [kdoc 0 [1], kdoc 1 [1], kdoc 2 [2], kdoc 3 [2], kdoc 4 [2], kdoc 5 [3], kdoc 6 [3], kdoc 7 [3]])
+      = [(Key.str 2, 3)] := by
+  decide
+
+/-- rare_terms `max_doc_count = 1`: key `1` twice in segment 1 (dropped there) and once in
+segment 2: the mechanism reports it as rare with count 1, the reference does not (count 3) -/
+theorem rare_terms_per_segment :
+    let a : Agg Unit Nat := .bucket (.rare () 1 none) .nil
+    (run a [[kdoc 0 [1], kdoc 1 [1]], [kdoc 2 [1]]]).map counts = some [(Key.str 1, 1)] ∧
+    counts (Spec.agg a [kdoc 0 [1], kdoc 1 [1], kdoc 2 [1]]) = [] := by
+  decide
+
+/-- rare_terms: the merge itself is not associative (a key dropped by an intermediate merge
+comes back with the next segment) -/
+theorem rare_terms_merge_not_assoc :
+    let a : Agg Unit Nat := .bucket (.rare () 2 none) .nil
+    let x := collect a [kdoc 0 [1], kdoc 1 [1]]
+    let y := collect a [kdoc 2 [1]]
+    let z := collect a [kdoc 3 [1]]
+    counts (merge a (merge a x y) z) = [(Key.str 1, 1)] ∧
+    counts (merge a x (merge a y z)) = [] := by
+  decide
+
+/-- histogram `min_doc_count = 2` (interval 10): values 1 and 2 in different segments -/
+theorem histogram_min_doc_count_per_segment :
+    let a : Agg Unit Nat := .bucket (.hist () 10 0 2 none none none) .nil
+    (run a [[ndoc 0 [1]], [ndoc 1 [2]]]).map counts = some [] ∧
+    counts (Spec.agg a [ndoc 0 [1], ndoc 1 [2]]) = [(Key.num 0, 2)] := by
+  decide +kernel
+
+/-- composite with a histogram source over an i64 column (`f64col = false`): no buckets at all,
+even with one segment -/
+theorem composite_histogram_i64_empty :
+    let a : Agg Unit Nat := .bucket (.composite [.hist () 5 false] 10 none) .nil
+    (run a [[ndoc 0 [7]]]).map counts = some [] ∧
+    counts (Spec.agg a [ndoc 0 [7]]) = [(Key.parts [Part.num 5], 1)] := by
+  decide +kernel
+
+/-! ## non-vacuity: safe requests exist at depth 3 and the theorem computes on them -/
+
+/-- terms ▸ histogram ▸ stats, two segments: mechanism = reference, with non-trivial content -/
+example :
+    let a : Agg Unit Nat := .bucket (.terms () none 1 none)
+      (.cons (.bucket (.filter .tt) (.cons (.valueCount () none) .nil)) .nil)
+    a.safe = true ∧
+    (run a [[kdoc 0 [1, 2]], [kdoc 1 [1]]]).map counts = some [(Key.str 1, 2), (Key.str 2, 1)] ∧
+    (run a [[kdoc 0 [1, 2]], [kdoc 1 [1]]]).map counts =
+      some (counts (Spec.agg a [kdoc 0 [1, 2], kdoc 1 [1]])) := by
+  decide
+
+example : (Agg.bucket (BSpec.terms () (some 3) 1 none) Aggs.nil : Agg Unit Nat).safe = false := by
+  decide
+
+/-- the hypothesis of the theorems is satisfiable for the driver's atoms -/
+example : StrictTotal (KOrd.lt (κ := String)) := stringLt_strictTotal
+example : StrictTotal (KOrd.lt (κ := Nat)) := natLt_strictTotal
+
 end SL.Aggs
